@@ -1187,7 +1187,7 @@ theorem afterRecycle_preserves (sk : Key) (d : StepDecl) (n : Node) :
   intro s s' hp h
   replace h : s.afterRecycle sk d n = .ok s' := h
   unfold KState.afterRecycle at h
-  have hp2 : FilesOK (s.modify sk fun n => { n with need := d.need, shell := d.shell, holding := 0 }) :=
+  have hp2 : FilesOK (s.modify sk fun n => { n with need := d.need, shell := d.shell }) :=
     filesOK_modify _ _ _ (fun _ h => h) hp
   split at h
   · exact markStepPending'_preserves sk _ s' hp2 h
